@@ -2,6 +2,7 @@
 //@ enforce: track_create
 //@ replace: timer_mgr_schedule track_connect_next dup_ips
 //@ flags: --object-bits 10
+//@ defs: -DXV_TRK_OWNED_AT_CALLS
 //@ props: C13 C08 C04
 //@ expect: postcondition>=7 canary=3
 #include "_unit_tc.h"
